@@ -219,4 +219,49 @@ let cmd_codegen (req : json) : json =
      | Aborted f -> Obj [ ("status", Str "aborted"); ("fault", Str (fault_name f)) ])
   with Unsupported s -> Obj [ ("status", Str "aborted"); ("fault", Str "unsupported"); ("detail", Str s) ]
 
-let () = main_loop [ ("codegen", cmd_codegen) ]
+(* ---------- oracle (b): static re-derivation under the implementation's final symbols ---------- *)
+let symdata_of (j : json) : symdata =
+  match j with
+  | Num _ -> DNum (to_z j)
+  | Str "placeholder" -> DPlaceholder
+  | Str "macro" -> DMacro
+  | Str s when String.length s >= 2 && String.sub s 0 2 = "s:" -> DStr (text_of_string (String.sub s 2 (String.length s - 2)))
+  | _ -> DPlaceholder
+
+let lerr_json (e : lerr) : json =
+  match e with
+  | LUnresolved sp -> Obj [ ("k", Str "unresolved"); ("span", jspan sp) ]
+  | LSymbol (p, expected, actual) ->
+    let sd = function DNum z -> jz z | DStr t -> Str ("s:" ^ string_of_text t) | DPlaceholder -> Str "placeholder" | DMacro -> Str "macro" in
+    Obj [ ("k", Str "symbol"); ("path", Str (string_of_path p)); ("expected", sd expected); ("actual", jopt sd actual) ]
+  | LError (k, sp) -> Obj [ ("k", Str "error"); ("code", jnat k); ("span", jspan sp) ]
+  | LNoMacro name -> Obj [ ("k", Str "no_macro"); ("name", Str (string_of_text name)) ]
+
+let cmd_relayout (req : json) : json =
+  try
+    let toks = tokens_of_ast (field req "ast") in
+    let m = List.map (fun e -> match to_list e with
+        | p :: _ :: v :: _ -> (split_path (to_str p), symdata_of v)
+        | _ -> ([], DPlaceholder)) (to_list (field req "symbols")) in
+    let segs = List.map (fun s ->
+        let ip = to_z (field s "initial_pc") in
+        (text_of_string (to_str (field s "name")), { ss_pc = ip; ss_initial = ip; ss_target = to_z (field s "target_address") }))
+        (to_list (field req "segments")) in
+    let cur = (match segs with (n, _) :: _ -> Some n | [] -> None) in
+    (match relayout (nat_of_int 4) (nat_of_int 3000) m toks segs cur with
+     | Inr w -> Obj [ ("status", Str (if int_of_nat w = 0 then "fuel" else "unsupported")) ]
+     | Inl None -> Obj [ ("status", Str "none") ]
+     | Inl (Some r) ->
+       let seg_json (name, ws) =
+         (match ws with
+          | [] -> Obj [ ("name", Str (string_of_text name)); ("empty", Bool true) ]
+          | (st0, b0) :: _ ->
+            let lo = List.fold_left (fun a (st, _) -> Z.min a st) st0 ws in
+            let hi = List.fold_left (fun a (st, bs) -> Z.max a (Z.add st (z_of_small (List.length bs)))) (Z.add st0 (z_of_small (List.length b0))) ws in
+            Obj [ ("name", Str (string_of_text name)); ("empty", Bool false); ("start", jz lo); ("end", jz hi);
+                  ("data", Str (hex_of (bytes_from ws lo (Z.to_nat (Z.sub hi lo))))) ]) in
+       Obj [ ("status", Str "ok"); ("segments", Arr (List.map seg_json r.lr_segments)); ("bad", Arr (List.map lerr_json r.lr_bad));
+             ("statements", Arr (List.rev_map (fun ((sp, addr), len) -> Arr [ jspan sp; jz addr; jnat len ]) r.lr_addrs)) ])
+  with Unsupported s -> Obj [ ("status", Str "unsupported"); ("detail", Str s) ]
+
+let () = main_loop [ ("codegen", cmd_codegen); ("relayout", cmd_relayout) ]
